@@ -82,6 +82,9 @@ func (p *Provider) Run(ctx context.Context, deps core.ProviderDeps) (err error) 
 		err = p.loadAmmo(ctx)
 		if err == nil {
 			err = p.runPreloaded(ctx)
+			if errors.Is(err, decoders.ErrAmmoLimit) || errors.Is(err, decoders.ErrPassLimit) {
+				err = nil
+			}
 		}
 	} else {
 		err = p.runFullScan(ctx)
